@@ -1,7 +1,10 @@
+//@ fn FilterPolicy::log
+//@ spec
+    ensures res == (self is Reject || self is Warn),
 //@ fn RejectedResources::keep_prefix
 //@ spec
     ensures
-        // C08: a prefix is kept iff it shares no address with the rejected
+        // C08 + C09: a prefix is kept iff it shares no address with the rejected
         // resources of its own address family
         res == self.rejected_addrs(prefix.is_v4_spec()).disjoint(prefix_addrs(prefix)),
 //@ fn SnapshotBuilder::process_origin
@@ -28,7 +31,7 @@
         // does not depend on whether the prefix overlaps rejected resources
         !(old(self).unsafe_vrps is Reject) && !old(self).exceptions.drop_origin_spec(origin.origin)
             ==> final(self).origins@.contains_key(origin.origin),
-        // C08: with reject an overlapping VRP is never added
+        // C08 + C09: with reject an overlapping VRP is never added
         old(self).unsafe_vrps is Reject && is_unsafe(&old(self).rejected, origin.origin)
             ==> final(self).origins@ == old(self).origins@,
         // frame
